@@ -209,6 +209,17 @@ def _operation_sites(fa: FA, name):
         if isinstance(f, ast.Attribute) and f.attr == name:
             out.append((c, f.value, _splice(fa, c.args, c), list(c.keywords)))
             continue
+        if isinstance(f, ast.Attribute) and f.attr == "callback" and c.args and isinstance(f.value, ast.Name) and not isinstance(c.args[0], ast.Starred):
+            # `stack.callback(R.name, args)` on the ExitStack of an enclosing with block: R.name(args) runs when the block is
+            # left, however it is left -- once registered it is certain to be applied
+            tgt = safe_expand(fa, c.args[0], c) if isinstance(c.args[0], ast.Name) else c.args[0]
+            ids_ = fa.nodes(c)
+            ds_ = fa.df.reaching(ids_[0], f.value.id) if ids_ else []
+            if isinstance(tgt, ast.Attribute) and tgt.attr == name and ds_ and all(
+                    d.kind == "with" and isinstance(d.value, ast.Call) and (A.dotted(d.value.func) or "").split(".")[-1] == "ExitStack"
+                    and d.stmt is not None and fa.inside(c, d.stmt) for d in ds_):
+                out.append((c, tgt.value, _splice(fa, c.args[1:], c), list(c.keywords)))
+                continue
         fx = safe_expand(fa, f, c) if isinstance(f, ast.Name) else f
         if isinstance(fx, ast.Attribute) and fx.attr == name:
             out.append((c, fx.value, _splice(fa, c.args, c), list(c.keywords)))
